@@ -74,6 +74,12 @@ def gen_cases(tier, seed):
         add(variant, 'precursor', f'{s1},{s1}', 2, real=True, cost=20)
         add(variant, 'precursor', f'{s1},{s2}', 1, real=True, cost=20)
         add(variant, 'precursor', f'{s2},{s2}', 1, real=True, cost=40)
+    # third order of the lowest class with first-order singles (products of
+    # several first-order wavefunctions in the ground-state projection)
+    add('pp', 'precursor', 'ph,ph', 3, real=True, part='mp', singles=True,
+        cost=40)
+    add('pp', 'isr', 'ph,ph', 3, part='mp', singles=True, cost=120)
+    add('ip', 'precursor', 'h,h', 3, real=True, part='mp', singles=True, cost=40)
     if tier == 'thorough':
         for variant in ('pp', 'ip', 'ea', 'dip', 'dea'):
             s1, s2, s3 = spaces_upto(variant, 3)
